@@ -547,6 +547,17 @@ func (tc *twoChain) actUserDeposit() {
 	if r.Chance(tc.p.Hooks, 100) {
 		data = tc.L2.makeHook(tc.L2.m, to, sdk.Coin{Denom: prover.L2Denom(tc.bridge, d), Amount: amt})
 	}
+	// inputs the L1 has to refuse, because the other side could never complete them
+	switch r.Weighted([]int{40, 1, 1, 1}) {
+	case 1:
+		to = "" // (with or without a payload) the L2 would refund it with an empty sender
+	case 2:
+		amt = math.NewInt(-int64(1 + r.Intn(1000)))
+	case 3:
+		if amt.IsZero() {
+			d = []string{"a", "1coin", "bad denom!"}[r.Intn(3)]
+		}
+	}
 	msg := &ophosttypes.MsgInitiateTokenDeposit{Sender: sender, BridgeId: tc.bridge, To: to, Amount: sdk.Coin{Denom: d, Amount: amt}, Data: data}
 	tc.r.Step("act.deposit", "%s%s %s -> L2 %s data=%dB", amt, d, short(sender), short(to), len(data))
 	tc.send(1, "user", []sdk.Msg{msg}, "deposit", fmt.Sprintf("bridge=1 %s%s from=%s to=%s data=%dB", amt, d, short(sender), short(to), len(data)))
